@@ -524,6 +524,10 @@ func (g *c09Rig) commit() {
 	g.quiesce()
 }
 
+// c09OnlyFaults (environment VERIF_C09_FAULTS = "block" | "tracker") restricts the injected COMMIT failures to one
+// database; used only for the sensitivity runs (to see each side of a defect separately). Unset in normal runs.
+var c09OnlyFaults = os.Getenv("VERIF_C09_FAULTS")
+
 const c09FlushTimeout = 90 * time.Second
 
 // waitDurable waits until the ledger confirms that block r is durable: through the Wait(r) channel, or by polling
@@ -1001,7 +1005,7 @@ func c09Run(tb *testing.T, t *rapid.T, vk *vkCtx) {
 		switch rapid.IntRange(0, 9).Draw(t, "step") {
 		case 0, 1, 2:
 			armed := 0
-			if rig.inject && rapid.IntRange(0, 2).Draw(t, "failTrackerCommit") == 0 {
+			if rig.inject && rapid.IntRange(0, 2).Draw(t, "failTrackerCommit") == 0 && c09OnlyFaults != "block" {
 				// the n-th COMMIT of the tracker DB from now fails: 1 = the registry's transaction, 2.. = the catchpoint tracker's
 				armed = rapid.SampledFrom([]int{1, 1, 1, 2, 3}).Draw(t, "failWhich")
 				rig.armTracker.Store(int32(armed))
@@ -1037,6 +1041,8 @@ func c09Run(tb *testing.T, t *rapid.T, vk *vkCtx) {
 				failBlock = rapid.IntRange(0, 3).Draw(t, "failBlockCommit") == 0
 				failTracker = !rig.parked && rapid.IntRange(0, 3).Draw(t, "failTrackerCommitInBurst") == 0
 			}
+			failBlock = failBlock && c09OnlyFaults != "tracker"
+			failTracker = failTracker && c09OnlyFaults != "block"
 			if failBlock {
 				rig.armBlock.Store(1)
 			}
